@@ -520,6 +520,7 @@ class Engine:
                 "events": list(st["events"]) if record else st["events"],
                 "edges": st["edges"],
                 "dec_direct": st["dec_direct"],
+                "copyof": st.get("copyof"),
                 "origin": st["origin"],
                 "blocks": st["blocks"] + () if record else st["blocks"],
             }
@@ -537,6 +538,8 @@ class Engine:
             # constant / tag propagation
             if ll is not None:
                 st["consts"].pop(ll, None)
+                if st.get("copyof") and (ll in st["copyof"] or ll in st["copyof"].values()):
+                    st["copyof"] = {a: b_ for a, b_ in st["copyof"].items() if a != ll and b_ != ll}
                 st["tags"].pop(ll, None)
                 if k == "use":
                     c = operand_const(rv["op"])
@@ -546,6 +549,11 @@ class Engine:
                     if src is not None:
                         if src in st["consts"]:
                             st["consts"][ll] = st["consts"][src]
+                        elif "cp" in rv["op"] and f.ts(lhs["ty"]) == "bool":
+                            # a copy of a not-yet-known bool: a later branch on the copy also tells the original
+                            # (`let last = old == 1; if last { .. } last`)
+                            st["copyof"] = dict(st.get("copyof") or {})
+                            st["copyof"][ll] = st["copyof"].get(src, src)
                         if src in st["tags"]:
                             st["tags"][ll] = st["tags"][src]
                 elif k == "unop" and rv["op"] == "Not":
@@ -659,6 +667,13 @@ class Engine:
                             s2 = fork(st)
                             if dl is not None and v is not None:
                                 s2["consts"][dl] = v
+                            if dl is not None and f.ts(t["discr_ty"]) == "bool" and (st.get("copyof") or {}).get(dl) is not None:
+                                root = st["copyof"][dl]
+                                bv = v if v is not None else (1 if [x for x, _b in t["arms"]] == [0] else (0 if [x for x, _b in t["arms"]] == [1] else None))
+                                if bv is not None and root not in s2["consts"]:
+                                    s2["consts"][root] = bv
+                                    if v is None:
+                                        s2["consts"][dl] = bv
                             if record:
                                 s2["events"].append({"kind": "BRANCH", "bb": bb, "span": t["span"], "vec": ZERO, "detail": {"value": v, "to": b2}, "run": s2["vec"]})
                             nexts.append((b2, s2))
